@@ -32,7 +32,7 @@ func syntaxEnumCount(maxLen int) int {
 func plans() map[string][]streamPlan {
 	return map[string][]streamPlan{
 		"C01": {{"core", 25000, 500000}, {"expr", 6000, 100000}, {"depth", depthCount(), depthCount()}, {"pairs", pairCount(), pairCount()}, {"size", sizeCount(), sizeCount()}},
-		"C02": {{"proj", 25000, 500000}, {"vproj", 8000, 150000}, {"pairs", pairCount(), pairCount()}, {"typed", 1500, 60000}, {"size", sizeCount(), sizeCount()}},
+		"C02": {{"proj", 25000, 500000}, {"vproj", 8000, 150000}, {"slice", 3000, 100000}, {"pairs", pairCount(), pairCount()}, {"typed", 1500, 60000}, {"size", sizeCount(), sizeCount()}},
 		"C03": {{"prec", 20000, 400000}, {"spelling", 6000, 150000}, {"syntax-enum", syntaxEnumCount(3), syntaxEnumCount(4)}, {"depth", depthCount(), depthCount()}},
 		"C04": {{"syntax-enum", syntaxEnumCount(3), syntaxEnumCount(4)}, {"syntax", 15000, 500000}, {"hostile", 4000, 50000}, {"depth", depthCount(), depthCount()}},
 		"C05": {{"hostile", 15000, 300000}, {"bytes", 20000, 500000}, {"expr", 10000, 200000}, {"fnmatrix", matrixCount(2), matrixCount(3)}, {"fnseq", 8000, 100000}, {"depth", depthCount(), depthCount()}, {"fn", 8000, 200000}, {"pairs", 60000, pairCount()}, {"size", sizeCount(), sizeCount()}},
